@@ -116,6 +116,7 @@ class ClassInfo:
     methods: Dict[str, FuncInfo] = field(default_factory=dict)
     class_attrs: Dict[str, ast.expr] = field(default_factory=dict)  # mangled name -> value expr
     annotations: Dict[str, ast.expr] = field(default_factory=dict)  # dataclass-style field declarations
+    decorators: List[str] = field(default_factory=list)
     _field_types: Optional[Dict[str, ast.expr]] = None
 
     def field_types(self) -> Dict[str, ast.expr]:
@@ -192,7 +193,11 @@ def load_module(relpath: str) -> ModuleInfo:
         src = f.read()
     tree = ast.parse(src, filename=key)
     mi = ModuleInfo(relpath=relpath, tree=tree, source=src)
+    top = list(tree.body)
     for node in tree.body:
+        if isinstance(node, ast.If):  # e.g. `if TYPE_CHECKING:` imports
+            top.extend(n for n in node.body if isinstance(n, (ast.Import, ast.ImportFrom)))
+    for node in top:
         if isinstance(node, ast.ImportFrom) and node.module:
             for a in node.names:
                 mi.imports[a.asname or a.name] = (node.module, a.name)
@@ -221,6 +226,7 @@ def load_module(relpath: str) -> ModuleInfo:
                     ci.class_attrs[mangle(sub.target.id, node.name)] = sub.value
                 elif isinstance(sub, ast.AnnAssign) and isinstance(sub.target, ast.Name):
                     ci.annotations[mangle(sub.target.id, node.name)] = sub.annotation
+            ci.decorators = _decorator_names(node)
             mi.classes[node.name] = ci
         elif isinstance(node, ast.FunctionDef):
             mi.functions[node.name] = FuncInfo(module=mi, cls=None, node=node, name=node.name, decorators=_decorator_names(node))
